@@ -522,7 +522,7 @@ func (u *Unit) checkFrame(st *State, site int, env *SpecEnv) {
 		}
 		if strings.HasPrefix(h, "H!") {
 			for i, a := range objAllowed {
-				if mayOwn(h, objAllowedT[i]) && u.eng.methodMayWrite(h) {
+				if mayOwn(h, objAllowedT[i]) && (!isIface(objAllowedT[i]) || u.eng.methodMayWrite(h)) {
 					excl = append(excl, app("distinct", r, a))
 				}
 			}
